@@ -1010,6 +1010,12 @@ EXTRACTORS["C03"] = EXTRACTORS["C03"] + [gen_saiswidth]
 THEOREMS["SaisWidth"] = ["RbV.Thm.C03.sais_width_arms_fit", "RbV.Thm.C03.sais_reduced_width_fits",
                          "RbV.Thm.C03.sais_transform_width_fits"]
 
+# genavl: the AVL interval tree (C07) — dialect "avl" of tools/rs2lean_genavl.py (recursive structure `Node`); Thm/C07.lean
+# imports RbV.Thm.GenSrcAvl* and restates the theorems
+TRANSLATOR_MODULES.append("rs2lean_genavl")
+GEN_SRC.update({n: gen_src(n) for n in ("SrcAvl",)})
+EXTRACTORS["C07"] = EXTRACTORS["C07"] + [GEN_SRC["SrcAvl"]]
+
 
 def main():
     ap = argparse.ArgumentParser()
